@@ -151,12 +151,23 @@ def run(ctx):
         for n in walk_own(f.node):
             if isinstance(n, ast.Assign) and n.value in finds and isinstance(n.targets[0], ast.Name):
                 var = n.targets[0].id
-        for n in walk_own(f.node):
-            if isinstance(n, ast.IfExp) and var and isinstance(n.test, ast.Name) and n.test.id == var and any(x in news for x in ast.walk(n.orelse)):
-                guarded = True
-            if isinstance(n, ast.If) and var and isinstance(n.test, ast.Compare) and dotted(n.test.left) == var \
-                    and isinstance(n.test.ops[0], ast.Is) and any(x in news for b in n.body for x in ast.walk(b)):
-                guarded = True
+        from sa import paths as P_
+        from sa.desugar import desugar as _desugar
+
+        fdx = _desugar(f.node)
+        news_d = [n for n in walk_own(fdx) if isinstance(n, ast.Call) and dotted(n.func) == newcls + ".new"]
+        n_paths = 0
+        guarded = bool(var) and bool(news_d)
+        for pth in P_.enum_paths(fdx.body):
+            for cn in news_d:
+                i = pth.index_of(cn)
+                if i is None:
+                    continue
+                n_paths += 1
+                if not P_.implied(P_.facts(pth, i), lambda a_: (a_[0] == "none" and a_[1] == var and a_[2] is True)
+                                  or (a_[0] == "truthy" and a_[1] == var and a_[2] is False)):
+                    guarded = False   # a new part is created on a path that has not established that the lookup found nothing
+        guarded = guarded and n_paths > 0
         # digest argument and stored object are the same image/media object
         same = False
         if finds and news and finds[0].args and isinstance(finds[0].args[0], ast.Attribute) and finds[0].args[0].attr == "sha1":
